@@ -435,3 +435,15 @@ Proof.
   discriminate.
 Qed.
 End Errors.
+
+Section Objects.
+Variable T : tabs.
+(* an object type the registry does not know (or a custom one, which the model does not follow) never yields a space *)
+Theorem object_types_known names ts : object_types T names = Ok ts -> forall s, In s names -> In s (t_objects T) /\ is_custom s = false.
+Proof.
+  revert ts. induction names as [|x r IH]; intros ts H s Hs; [destruct Hs|]. cbn [object_types] in H.
+  destruct (is_custom x) eqn:Cu; [discriminate|]. destruct (index_of x (t_objects T) 0) as [i|] eqn:I; [|discriminate].
+  destruct (object_types T r) as [t|] eqn:R; [|discriminate]. destruct Hs as [<-|Hs]; [|exact (IH t eq_refl s Hs)].
+  split; [|exact Cu]. apply index_of_spec in I. destruct I as [_ N]. eapply nth_error_In; eauto.
+Qed.
+End Objects.
